@@ -1,6 +1,10 @@
 /- C08: ties to the source text.  Built and audited together with Props/C08.lean by check.py, but in a module of its own, so that a
    changed textual fact breaks the obligations of the properties that own it and not those of every module that imports their lemmas. -/
 import CosetProofs.Ties.Budget.Header
+import CosetProofs.Ties.Compare.Common
+import CosetProofs.Ties.Compare.Header
+import CosetProofs.Ties.Compare.Iana
+import CosetProofs.Ties.Compare.Sign
 namespace Coset.Props.C08
 
 /-! ### ties to the source text (regenerated on every run, compared in the kernel with the transcribed tree) -/
@@ -9,5 +13,16 @@ namespace Coset.Props.C08
 theorem tie_budget_header : Coset.Ties.budgetCovered "header" Coset.Gen.decisionBudget Coset.Pinned.decisionBudget = true := Coset.Ties.budget_header
 
 #print axioms tie_budget_header
+
+/-! comparisons and integer literals of the modules this property is anchored in (properties.jsonl): none beyond the transcribed tree's -/
+theorem tie_compare_common : Coset.Ties.compareCovered "common" Coset.Gen.decisionBudget Coset.Pinned.decisionBudget = true := Coset.Ties.compare_common
+theorem tie_compare_header : Coset.Ties.compareCovered "header" Coset.Gen.decisionBudget Coset.Pinned.decisionBudget = true := Coset.Ties.compare_header
+theorem tie_compare_iana : Coset.Ties.compareCovered "iana" Coset.Gen.decisionBudget Coset.Pinned.decisionBudget = true := Coset.Ties.compare_iana
+theorem tie_compare_sign : Coset.Ties.compareCovered "sign" Coset.Gen.decisionBudget Coset.Pinned.decisionBudget = true := Coset.Ties.compare_sign
+
+#print axioms tie_compare_common
+#print axioms tie_compare_header
+#print axioms tie_compare_iana
+#print axioms tie_compare_sign
 
 end Coset.Props.C08
